@@ -872,7 +872,7 @@ Proof.
   - destruct (get k fd) as [s|]; [|exact H]. destruct (s_tcb s) as [t|]; [|exact H].
     destruct (t_state t).
     + destruct (has (p_flags p) F_SYN && has (p_flags p) F_ACK); [|exact H]. now apply wf_emit, wf_set_tcb.
-    + destruct (has (p_flags p) F_ACK && negb (has (p_flags p) F_SYN)); [|exact H].
+    + destruct (has (p_flags p) F_ACK && negb (has (p_flags p) F_SYN) && has (p_flags p) F_OK); [|exact H].
       now apply wf_push_to_listener, wf_set_tcb.
     + destruct (negb (p_id p =? 0)); [now apply wf_emit, wf_set_tcb|].
       destruct (has (p_flags p) F_SYN); [now apply wf_emit|exact H].
